@@ -5,6 +5,7 @@ import IpaVerif.Model.Gf2k
 import IpaVerif.Generated.BinaryFields
 import IpaVerif.Model.BoolArray
 import IpaVerif.Generated.BoolArrays
+import IpaVerif.Generated.DzkpConstants
 /-! Line-protocol handlers for property C08 (model side). Import-free. -/
 namespace IpaVerif.Driver.C08
 open IpaVerif.Util IpaVerif.PrimeField
@@ -139,9 +140,44 @@ def boolean (op : String) (args : List String) : Option String :=
   | "deser", [h] => do pure (optBool (BoolArray.Boolean.deserialize (← parseHexBytes h)))
   | _, _ => none
 
+/-! ### replicated shares `c08.share3 <Field> <op> s0 s1 s2 [t0 t1 t2 | c]` and DZKP constants `c08.const <NAME>`
+
+A 3-party replicated sharing is `s0 s1 s2`; helper `i` holds `(s_i, s_{i+1})`. The response lists the
+three helpers' result pairs `l0 r0 l1 r1 l2 r2` after the *local* operation. -/
+def share3 (P : Params) (op : String) (args : List String) : Option String := do
+  let ns ← args.mapM String.toNat?
+  let out (f : Nat → Nat) : String :=
+    String.intercalate " " ([0, 1, 2].map (fun i => s!"{f i} {f ((i + 1) % 3)}"))
+  match op, ns with
+  | "add", [s0, s1, s2, t0, t1, t2] =>
+      let s := [s0, s1, s2]; let t := [t0, t1, t2]
+      pure (out (fun i => add P (s.getD i 0) (t.getD i 0)))
+  | "sub", [s0, s1, s2, t0, t1, t2] =>
+      let s := [s0, s1, s2]; let t := [t0, t1, t2]
+      pure (out (fun i => sub P (s.getD i 0) (t.getD i 0)))
+  | "neg", [s0, s1, s2] =>
+      let s := [s0, s1, s2]
+      pure (out (fun i => neg P (s.getD i 0)))
+  | "mulconst", [s0, s1, s2, c] =>
+      let s := [s0, s1, s2]
+      pure (out (fun i => mul P (s.getD i 0) c))
+  | _, _ => none
+
+def dzkpConst (n : String) : Option Nat :=
+  match n with
+  | "INVERSE_OF_TWO" => some IpaVerif.Generated.dzkpInverseOfTwo
+  | "MINUS_ONE_HALF" => some IpaVerif.Generated.dzkpMinusOneHalf
+  | "MINUS_TWO" => some IpaVerif.Generated.dzkpMinusTwo
+  | _ => none
+
 /-- `some response` if the request belongs to this property, else `none`. -/
 def handle (toks : List String) : Option String :=
   match toks with
+  | "c08.share3" :: f :: op :: args =>
+      match fieldByName f with
+      | some P => some ((share3 P op args).getD "bad-request")
+      | none => some "bad-request"
+  | ["c08.const", n] => some (((dzkpConst n).map toString).getD "bad-request")
   | "c08.ba" :: f :: op :: args =>
       match baByName f with
       | some B => some ((ba B op args).getD "bad-request")
@@ -252,6 +288,11 @@ def gfOracle (G : Gf2k.Params) (op : String) (args : List String) (impl : String
       let a ← a.toNat?
       let b ← b.toNat?
       ok (impl == (if a < b then "0" else if a == b then "1" else "2")) "ordering differs from the integer ordering"
+  | "fromslice", [h] => do
+      let bs ← parseHexBytes h
+      let v := ofLeBytes bs
+      if impl == "err" then ok (bs.length * 8 > G.bits || v ≥ 2 ^ G.bits || bs.length > G.bits / 8) "a slice that fits the element was rejected"
+      else ok (impl == s!"ok {v}" && v < 2 ^ G.bits) "TryFrom<&[u8]> produced a non-canonical element (bits beyond BITS set) or a wrong value"
   | _, _ => none
 
 /-! Spec side for Boolean arrays: an array is the vector of its `BITS` bits (a number below `2^BITS`);
@@ -321,9 +362,43 @@ def boolOracle (op : String) (args : List String) (impl : String) : Option Strin
       ok (impl == (match bs with | [b] => if b < 2 then s!"ok {b}" else "err" | _ => "err")) "deserialize must accept exactly the bytes 00 and 01"
   | _, _ => none
 
+/-- spec side for shares: the results are a consistent sharing of `op` applied to the secrets. -/
+def share3Oracle (P : Params) (op : String) (args : List String) (impl : String) : Option String := do
+  let p := P.p
+  let ns ← args.mapM String.toNat?
+  let rs ← (impl.splitOn " ").mapM String.toNat?
+  match rs with
+  | [l0, r0, l1, r1, l2, r2] =>
+      if !(r0 == l1 && r1 == l2 && r2 == l0) then pure "fails the three helpers' results are not a consistent replicated sharing" else
+      if !(l0 < p && l1 < p && l2 < p) then pure "fails a share is not a canonical field element" else
+      let got := (l0 + l1 + l2) % p
+      let want ← match op, ns with
+        | "add", [s0, s1, s2, t0, t1, t2] => some ((s0 + s1 + s2 + (t0 + t1 + t2)) % p)
+        | "sub", [s0, s1, s2, t0, t1, t2] => some ((s0 + s1 + s2 + 3 * p - (t0 + t1 + t2)) % p)
+        | "neg", [s0, s1, s2] => some ((3 * p - (s0 + s1 + s2)) % p)
+        | "mulconst", [s0, s1, s2, c] => some (((s0 + s1 + s2) * c) % p)
+        | _, _ => none
+      pure (if got == want then "holds" else "fails the local operation on shares does not commute with reconstruction")
+  | _ => pure "fails malformed result"
+
+def constOracle (n : String) (impl : String) : Option String := do
+  let p := IpaVerif.Generated.fp61.p
+  let v ← impl.toNat?
+  if v ≥ p then pure "fails constant is not canonical" else
+  match n with
+  | "INVERSE_OF_TWO" => pure (if (2 * v) % p == 1 then "holds" else "fails 2 * INVERSE_OF_TWO != 1")
+  | "MINUS_ONE_HALF" => pure (if (2 * v + 1) % p == 0 then "holds" else "fails 2 * MINUS_ONE_HALF + 1 != 0")
+  | "MINUS_TWO" => pure (if (v + 2) % p == 0 then "holds" else "fails MINUS_TWO + 2 != 0")
+  | _ => none
+
 /-- Property oracle on (request, implementation response). -/
 def oracle (toks : List String) (impl : String) : Option String :=
   match toks with
+  | "c08.share3" :: f :: op :: args =>
+      match fieldByName f with
+      | some P => some ((share3Oracle P op args impl).getD "unknown")
+      | none => some "unknown"
+  | ["c08.const", n] => some ((constOracle n impl).getD "unknown")
   | "c08.ba" :: f :: op :: args =>
       match baByName f with
       | some B => some ((baOracle B op args impl).getD "unknown")
@@ -336,6 +411,13 @@ def oracle (toks : List String) (impl : String) : Option String :=
   | "c08.pf" :: f :: op :: args =>
       match fieldByName f with
       | some P =>
+        let mayPanic := match op, args with
+          | "inv", [a] => a.toNat? == some 0
+          | "batchinv", [l] => ((parseNatList l).getD []).any (· % P.p == 0) || l == "-"
+          | _, _ => false
+        if impl.startsWith "panic" && !mayPanic then
+          some "fails the operation panicked on canonical operands (overflow of the operation store / failed unwrap)"
+        else
         match pfOracle P op args impl with
         | some true => some "holds"
         | some false => some "fails result differs from arithmetic modulo PRIME (or is not the canonical representative)"
